@@ -325,6 +325,190 @@ def check_wavedrom(ctx, wf):
         ctx.ok('C15.d', 'wavedrom-encoder', '%d paths per sample: one character, dot iff repeat, label iff marker, reference updated; state reset per row' % n)
 
 
+def check_f(ctx, facts, tier, seed):
+    """C15.f: the recorder is bookkeeping over Python lists (no datapath), so it is evaluated by the abstract
+    interpreter on elaborated systems: watch lists with direct wires, ports and repeats; wire values set by the
+    analysis before every recorder.clock(); getDict() and the decoded get_wavedrom() must both give back exactly
+    those sample sequences, also across clear(), for zero cycles, and for repeated drawing."""
+    import random
+    from ..elab import ElabError, ElabRaise, PyExc, ObjV
+    from ..netlist import Design, NetError
+    rnd = random.Random(seed + 1515)
+    where = '%s:Waveform' % REL
+
+    def decode(rows, fmts, ncycles):
+        """rendered rows -> per-row sample list (or a string describing why it cannot be decoded)"""
+        out = []
+        lens = {len(r['wave']) for r in rows}
+        if len(lens) != 1:
+            return 'rows have different lengths %s' % sorted(lens)
+        L = lens.pop()
+        if L - 2 != ncycles:
+            return 'the rendering spans %d cycles, the recording %d' % (L - 2, ncycles)
+        if rows[0]['wave'] != 'P' + '.' * ncycles + 'x':
+            return 'clock row is %r' % rows[0]['wave']
+        for r, width in zip(rows[1:], fmts):
+            wave = r['wave'][1:-1]
+            labels = list(r.get('data', []))
+            vals, last = [], None
+            for ch in wave:
+                if ch == '.':
+                    if last is None:
+                        return 'row %s starts with a repeat' % r['name']
+                    vals.append(last)
+                    continue
+                if width == 1:
+                    if ch not in '01':
+                        return 'row %s: character %r for a 1-bit wire' % (r['name'], ch)
+                    last = int(ch)
+                else:
+                    if ch != '2' or not labels:
+                        return 'row %s: marker %r / missing label' % (r['name'], ch)
+                    try:
+                        last = int(labels.pop(0), 16)
+                    except ValueError:
+                        return 'row %s: label is not hexadecimal' % r['name']
+                vals.append(last)
+            if labels:
+                return 'row %s: %d unused data labels' % (r['name'], len(labels))
+            out.append(vals)
+        return out
+
+    def scenario(nwatch):
+        D = Design(facts)
+        el = D.el
+        a, b, c = D.wire('a', 1), D.wire('b', 4), D.wire('c', 8)
+        buf = D.make('Buf', 'buf', b, D.wire('b2', 4))
+        pin, pout = buf.attrs['inPorts'][0], buf.attrs['outPorts'][0]
+        pool = [('a', a, a), ('b', b, b), ('c', c, c), ('port(b)', pin, b), ('port(b2)', pout, pout.attrs['wire']), ('a', a, a), ('b', b, b)]
+        watch = [rnd.choice(pool) for _ in range(nwatch)]
+        wf = D.make('Waveform', 'wf', [x[1] for x in watch], rel=REL)
+        wires = {id(w): w for _, _, w in pool}
+        return D, el, wf, watch, list(wires.values())
+
+    def meth(el, o, name, *args, **kw):
+        el.steps = 0
+        return el.call(el.getattr_(o, name), list(args), kw, {})
+
+    nsc = 0
+    bad = None
+    for t in range(40 if tier == 'quick' else 300):
+        try:
+            D, el, wf, watch, wires = scenario(rnd.choice((1, 2, 3, 4, 5)))
+            script = rnd.choice((['run', 'draw'], ['draw'], ['run', 'draw', 'clear', 'run', 'draw'], ['run', 'draw', 'run', 'draw', 'draw'],
+                                 ['run', 'clear', 'draw'], ['run', 'draw', 'clear', 'draw', 'run', 'draw']))
+            runlen = rnd.choice((1, 2, 3, 5, 8))          # the same length in every run of a script (stale renderings of equal length)
+            expect = {w.oid: [] for w in wires}
+            hist = []
+            for op in script:
+                hist.append(op)
+                if op == 'run':
+                    for _ in range(runlen):
+                        for w in wires:
+                            if rnd.random() < 0.6 or not expect[w.oid]:
+                                w.attrs['value'] = rnd.randrange(1 << w.attrs['width'])
+                            expect[w.oid].append(w.attrs['value'])
+                        meth(el, wf, 'clock')
+                elif op == 'clear':
+                    meth(el, wf, 'clear')
+                    expect = {k: [] for k in expect}
+                else:
+                    n = len(next(iter(expect.values())))
+                    dd = meth(el, wf, 'getDict')
+                    for label, obj, w in watch:
+                        got = dd.get(w) if hasattr(dd, 'get') else None
+                        if got is None or list(got) != expect[w.oid]:
+                            bad = dict(problem='getDict()[%s] is %s, the wire carried %s' % (label, got, expect[w.oid]), script=hist, watch=[x[0] for x in watch])
+                            break
+                    if bad:
+                        break
+                    r = meth(el, wf, 'get_wavedrom', rnd.choice((True, False)))
+                    rows = r['signal']
+                    if len(rows) != len(watch) + 1:
+                        bad = dict(problem='%d rows for %d watched entries' % (len(rows) - 1, len(watch)), script=hist, watch=[x[0] for x in watch])
+                        break
+                    dec = decode(rows, [w.attrs['width'] for _, _, w in watch], n)
+                    if isinstance(dec, str):
+                        bad = dict(problem='the rendering does not decode: ' + dec, script=hist, watch=[x[0] for x in watch])
+                        break
+                    for (label, obj, w), vals in zip(watch, dec):
+                        if vals != expect[w.oid]:
+                            bad = dict(problem='row %s decodes to %s, the recording is %s' % (label, vals, expect[w.oid]), script=hist, watch=[x[0] for x in watch], run_length=runlen)
+                            break
+                    if bad:
+                        break
+            nsc += 1
+            if bad:
+                break
+        except ElabRaise as e:
+            bad = dict(problem='the recorder raises: %s' % e, script=hist, watch=[x[0] for x in watch])
+            break
+        except (ElabError, NetError, PyExc, KeyError, TypeError, AttributeError) as e:
+            ctx.ok('C15.f', 'scenarios', 'the recorder code is outside the interpreted subset (%s: %s): decided by the shape rules only' % (type(e).__name__, str(e)[:80]), grade='refused')
+            return None
+    if bad:
+        ctx.violation('C15.f', 'scenarios', 'recorder scenario: %s' % bad['problem'], where, witness=bad)
+        return False
+    # recorders driven through the simulator (a system of wires and recorders only: no datapath code is interpreted)
+    try:
+        nsim = 0
+        for t in range(12 if tier == 'quick' else 80):
+            D = Design(facts)
+            el = D.el
+            a, b = D.wire('a', 1), D.wire('b', 4)
+            recs = []
+            hist = []
+            expect = []
+
+            def attach(watch):
+                wf = D.make('Waveform', 'wf%d' % len(recs), [dict(a=a, b=b)[x] for x in watch], rel=REL)
+                recs.append((wf, watch, dict(a=[], b=[])))
+                hist.append('attach recorder %d watching %s' % (len(recs) - 1, watch))
+            if rnd.random() < 0.5:
+                attach(rnd.choice((['a'], ['a', 'b'], ['b', 'b'])))
+            sim = meth(el, D.sys, 'getSimulator')
+            hist.append('getSimulator()')
+            for step in range(rnd.choice((2, 3, 4))):
+                if rnd.random() < 0.5:
+                    attach(rnd.choice((['a'], ['a', 'b'], ['b'])))
+                    sim = meth(el, D.sys, 'getSimulator')
+                    hist.append('getSimulator()')
+                a.attrs['value'] = rnd.randrange(2)
+                b.attrs['value'] = rnd.randrange(16)
+                k = rnd.choice((0, 1, 1, 2, 3))
+                hist.append('a=%d b=%d clk(%d)' % (a.attrs['value'], b.attrs['value'], k))
+                meth(el, sim, 'clk', k)
+                for wf, watch, exp in recs:
+                    exp['a'] += [a.attrs['value']] * k
+                    exp['b'] += [b.attrs['value']] * k
+            nsim += 1
+            for i, (wf, watch, exp) in enumerate(recs):
+                dd = meth(el, wf, 'getDict')
+                for x in set(watch):
+                    got = list(dd.get(dict(a=a, b=b)[x]) or [])
+                    if got != exp[x]:
+                        bad = dict(problem='recorder %d holds %s for wire %s, the wire carried %s in the cycles simulated since it was attached' % (i, got, x, exp[x]), history=hist)
+                        break
+                if bad:
+                    break
+            if bad:
+                break
+    except ElabRaise as e:
+        bad = dict(problem='simulating a system of wires and recorders raises: %s' % e, history=hist)
+    except (ElabError, NetError, PyExc, KeyError, TypeError, AttributeError) as e:
+        ctx.ok('C15.f', 'through-simulator', 'the simulator entry code is outside the interpreted subset (%s: %s): decided by the shape rules only' % (type(e).__name__, str(e)[:80]), grade='refused')
+        nsim = None
+    if bad:
+        ctx.violation('C15.f', 'through-simulator', 'recorder driven by the simulator: %s' % bad['problem'], '%s:Waveform / py4hw/simulation.py:Simulator.clk' % REL, witness=bad)
+        return False
+    if nsim is not None:
+        ctx.ok('C15.f', 'through-simulator', '%d histories (recorders attached before / after the simulator exists, clk(k) for k in 0..3, values changed between calls): '
+               'one pre-edge sample per simulated cycle since attachment' % nsim, grade='bounded')
+    ctx.ok('C15.f', 'scenarios', '%d scenarios (watch lists of wires / ports / repeats; run, draw, clear interleavings incl. zero cycles and equal-length re-runs): '
+           'getDict() and the decoded rendering equal the values the wires carried' % nsc, grade='bounded')
+    return True
+
+
 def run(ctx, sm, facts):
     ctx.rule('C15.a', 'watch-list registration: one format per entry; key + fresh list together under the membership guard; ports keyed by wire')
     ctx.rule('C15.b', 'one data[key].append(key.get()) per watched key per cycle on every path')
@@ -349,4 +533,6 @@ def run(ctx, sm, facts):
             ctx.violation('C15.a', '%s-identity' % cn, '%s defines %s: the sample table is keyed by wire objects' % (cn, ident), 'py4hw/base.py:%s' % cn)
         else:
             ctx.ok('C15.a', '%s-identity' % cn, 'wires keep identity equality/hash')
-    ctx.not_decided.append('decoding the rendering back to sample sequences for all histories (a consequence of the per-sample rules, not proved)')
+    ctx.rule('C15.f', 'recorder scenarios evaluated on elaborated systems: getDict() and the decoded rendering equal the carried values')
+    check_f(ctx, facts, ctx.tier, ctx.seed)
+    ctx.not_decided.append('decoding the rendering back to sample sequences for all histories (per-sample rules + bounded scenarios, not proved)')
